@@ -132,6 +132,7 @@ struct UdpSock {
     q: VecDeque<(Vec<u8>, SocketAddr)>,
     waker: Option<Waker>,
     recvs: u64,
+    bind_ix: usize,
 }
 
 #[derive(Clone, Copy, Debug, PartialEq, Eq, Serialize, Deserialize)]
@@ -240,6 +241,8 @@ pub struct Net {
     /// every datagram handed to the network, in send order (observation for oracles)
     pub sent_log: Vec<Dgram>,
     pub keep_sent_log: bool,
+    /// every socket ever bound by real code: (local address, successful recv_from calls)
+    pub udp_bind_log: Vec<(SocketAddr, u64)>,
 }
 
 fn net<R>(f: impl FnOnce(&mut Net) -> R) -> R {
@@ -255,6 +258,10 @@ pub fn configure(base_latency_ns: u64, jitter_ns: u64) {
 
 pub fn keep_sent_log(on: bool) {
     net(|n| n.keep_sent_log = on)
+}
+
+pub fn udp_bind_log() -> Vec<(SocketAddr, u64)> {
+    net(|n| n.udp_bind_log.clone())
 }
 
 pub fn take_sent_log() -> Vec<Dgram> {
@@ -413,7 +420,9 @@ impl SimUdpSocket {
             if n.udp_socks.contains_key(&a) || n.udp_nodes.contains_key(&a) {
                 return Err(io::Error::new(io::ErrorKind::AddrInUse, "address in use"));
             }
-            n.udp_socks.insert(a, UdpSock { q: VecDeque::new(), waker: None, recvs: 0 });
+            let bind_ix = n.udp_bind_log.len();
+            n.udp_bind_log.push((a, 0));
+            n.udp_socks.insert(a, UdpSock { q: VecDeque::new(), waker: None, recvs: 0, bind_ix });
             Ok(Self { local: a })
         })
         .inspect(|s| exec::log(&format!("udp bind {}", s.local)))
@@ -448,6 +457,8 @@ impl DnsUdpSocket for SimUdpSocket {
             match s.q.pop_front() {
                 Some((b, from)) => {
                     s.recvs += 1;
+                    let ix = s.bind_ix;
+                    n.udp_bind_log[ix].1 += 1;
                     Some((b, from))
                 }
                 None => {
@@ -487,6 +498,8 @@ pub struct SimTcp {
     conn: u64,
     /// 0 = client end (writes pipe 0, reads pipe 1); 1 = server end
     side: usize,
+    /// only the owning handle closes the connection end when dropped
+    owner: bool,
 }
 
 impl SimTcp {
@@ -498,6 +511,11 @@ impl SimTcp {
     }
     pub fn conn_id(&self) -> u64 {
         self.conn
+    }
+    /// second handle to the same connection end (for scripted peers that read and write from
+    /// different tasks); dropping it does not close anything
+    pub fn dup(&self) -> SimTcp {
+        SimTcp { conn: self.conn, side: self.side, owner: false }
     }
     pub fn peer_addr(&self) -> SocketAddr {
         net(|n| {
@@ -554,7 +572,7 @@ pub fn tcp_pair(c2s: PipePlan, s2c: PipePlan) -> (SimTcp, SimTcp) {
         );
         id
     });
-    (SimTcp { conn: id, side: 0 }, SimTcp { conn: id, side: 1 })
+    (SimTcp { conn: id, side: 0, owner: true }, SimTcp { conn: id, side: 1, owner: true })
 }
 
 /// bytes ever written into direction `dir` (0 = client→server) of connection `conn`
@@ -806,6 +824,9 @@ impl AsyncWrite for SimTcp {
 
 impl Drop for SimTcp {
     fn drop(&mut self) {
+        if !self.owner {
+            return;
+        }
         let (conn, wr, rd) = (self.conn, self.wr(), self.rd());
         let _ = exec::try_with(|st| {
             let n = st.ext::<Net>();
@@ -878,8 +899,8 @@ fn establish(host: IpAddr, server_addr: SocketAddr, c2s: PipePlan, s2c: PipePlan
         (id, client)
     });
     with(|st| st.ilog(&format!("C{host}>{}", server_addr.ip())));
-    (acceptor.borrow_mut())(SimTcp { conn: id, side: 1 }, client_addr);
-    Ok(SimTcp { conn: id, side: 0 })
+    (acceptor.borrow_mut())(SimTcp { conn: id, side: 1, owner: true }, client_addr);
+    Ok(SimTcp { conn: id, side: 0, owner: true })
 }
 
 // ------------------------------------------------------------------------------------------
